@@ -22,6 +22,12 @@ func init() {
 
 func c13() []*Ob {
 	return []*Ob{
+		{Prop: "C13", ID: "C13.11", Engine: "PAIR(two sites)", Floor: 1,
+			Desc:  "an exact value is looked for in every block that may hold it: GetTIDsByTokenExpr hands all selected table entries to the provider, or — if it keeps only the first — SelectEntries selects by the whole value (no shortened hint)",
+			Check: func(c *Ctx) { exactValueBlocksComplete(c) }},
+		{Prop: "C13", ID: "C13.12", Engine: "PAIR(two sites)", Floor: 1,
+			Desc:  "a field's lowest token survives the write/load round trip of the token table (shared rule with C03.11)",
+			Check: func(c *Ctx) { fieldMinValIsFirstEntrys(c) }},
 		{Prop: "C13", ID: "C13.10", Engine: "PAIR(parse/validate)", Floor: 2,
 			Desc: "each end of a numeric range is validated itself: in NewRangeNumberSearch every number obtained from strconv.ParseFloat is the one handed to the not-a-number/infinity test (the parsed value, or the field it was stored in) before the searcher is returned — testing the lower end twice lets `[* to Inf]` or `[1 to NaN]` be evaluated numerically instead of falling back to the text range: text tokens the range denotes are missed",
 			Check: func(c *Ctx) {
